@@ -134,6 +134,9 @@ func (p *Provider) loadAmmo(ctx context.Context) error {
 	if err != nil {
 		return fmt.Errorf("cant LoadAmmo, err: %w", err)
 	}
+	if len(ammos) == 0 {
+		return decoders.ErrNoAmmo
+	}
 	p.ammos = make([]decoders.DecodedAmmo, 0, len(ammos))
 	for _, ammo := range ammos {
 		if confutil.IsChosenCase(ammo.Tag(), p.Config.ChosenCases) {
@@ -146,7 +149,9 @@ func (p *Provider) loadAmmo(ctx context.Context) error {
 func (p *Provider) runPreloaded(ctx context.Context) error {
 	length := uint(len(p.ammos))
 	if length == 0 {
-		return decoders.ErrNoAmmo
+		// The file has ammo, but chosencases filtered all of it out:
+		// finish without error, as the not preloaded provider does.
+		return nil
 	}
 	ammoNum := uint(0)
 	passNum := uint(0)
